@@ -109,17 +109,20 @@ Qed.
 Lemma out_bline_not_pin b o n v : out_bline b <> OPin o n v.
 Proof. destruct b; discriminate. Qed.
 
-Lemma in_emit_pin pins o n v : forall bs, In (OPin o n v) (emit pins bs) -> In (OPin o n v) pins.
+Lemma in_emit_pin pins o n v : forall bs lvl, In (OPin o n v) (emit lvl pins bs) -> In (OPin o n v) pins.
 Proof.
   assert (M : forall b, ~ In (OPin o n v) (map out_bline b)).
   { intros b I. apply in_map_iff in I. destruct I as [x [E _]]. now apply out_bline_not_pin in E. }
-  induction bs as [|[f b] bs IH]; simpl; [tauto|]. destruct f.
+  induction bs as [|[f b] bs IH]; intro lvl; cbn [emit]; [simpl; tauto|]. destruct f.
   - destruct (existsb fst bs); simpl.
-    + intros [E|I]; [discriminate|]. apply in_app_or in I. destruct I as [I|[E|I]]; [now apply M in I|discriminate|auto].
+    + intros [E|I]; [discriminate|]. apply in_app_or in I. destruct I as [I|[E|I]]; [now apply M in I|discriminate|eauto].
     + intros [E|I]; [discriminate|]. apply in_app_or in I. destruct I as [I|[E|I]]; [assumption|discriminate|].
-      apply in_app_or in I. destruct I as [I|[E|I]]; [now apply M in I|discriminate|auto].
-  - intro I. apply in_app_or in I. destruct I as [I|I]; [now apply M in I|auto].
+      apply in_app_or in I. destruct I as [I|[E|I]]; [now apply M in I|discriminate|eauto].
+  - intro I. apply in_app_or in I. destruct I as [I|I]; [now apply M in I|eauto].
 Qed.
+
+Lemma in_final_not_pin bl o n v : ~ In (OPin o n v) (final_lines bl).
+Proof. unfold final_lines. intro I. apply in_map_iff in I. destruct I as [x [E _]]. discriminate. Qed.
 
 Lemma pins_sound jf sf cf w e top plist force rd ls out o n v :
   expand_gen jf sf cf w e top plist force rd ls = Ok out -> In (OPin o n v) out ->
@@ -127,7 +130,8 @@ Lemma pins_sound jf sf cf w e top plist force rd ls out o n v :
 Proof.
   unfold expand_gen.
   destruct (collect jf sf cf w e top plist force rd _ _) as [a|x] eqn:C; [|discriminate].
-  intro H; inversion H; subst. intro I. apply in_emit_pin in I. apply in_pin_lines in I.
+  intro H; inversion H; subst. intro I. apply in_app_or in I. destruct I as [I|I]; [|now apply in_final_not_pin in I].
+  apply in_emit_pin in I. apply in_pin_lines in I.
   apply collect_sound in C; [|constructor]. rewrite Forall_forall in C. apply (C (n, v) I).
 Qed.
 
@@ -168,26 +172,34 @@ Proof.
 Qed.
 
 (* what a reader sees of each block *)
-Fixpoint view_blocks (exact : bool) (pins : list oline) (bs : list (bool * list bline)) : list oline :=
+Fixpoint view_blocks (exact : bool) (lvl : Z) (pins : list oline) (bs : list (bool * list bline)) : list oline :=
   match bs with
   | [] => []
-  | (false, b) :: rest => map out_bline b ++ view_blocks exact pins rest
+  | (false, b) :: rest => map out_bline b ++ view_blocks exact (snd (block_levels lvl b)) pins rest
   | (true, b) :: rest =>
-      (if exact then (if existsb fst rest then [] else pins) else map out_bline (drop_last_blank b))
-      ++ view_blocks exact pins rest
+      (if exact then (if existsb fst rest then [] else pins) else map out_bline (setup_body lvl b))
+      ++ view_blocks exact lvl pins rest
   end.
 
-Lemma view_emit exact pins : plain pins -> forall bs,
-  view exact VOut (emit pins bs) = view_blocks exact pins bs.
+(* [tl]: what follows the blocks (the lines naming eups) *)
+Lemma view_emit exact pins tl : plain pins -> plain tl -> forall bs lvl,
+  view exact VOut (emit lvl pins bs ++ tl) = view_blocks exact lvl pins bs ++ tl.
 Proof.
-  intros Pp. induction bs as [|[f b] bs IH]; [reflexivity|]. destruct f; cbn [emit view_blocks].
-  - destruct (existsb fst bs).
-    + cbn [view]. rewrite view_not_plain by apply plain_out. cbn [view]. rewrite IH. now destruct exact.
-    + cbn [view]. rewrite view_pins_plain by assumption. cbn [view].
-      rewrite view_else_plain by apply plain_out. cbn [view]. rewrite IH.
-      destruct exact; simpl; now rewrite ?app_nil_r.
-  - rewrite view_out_plain by apply plain_out. now rewrite IH.
+  intros Pp Pt. induction bs as [|[f b] bs IH]; intro lvl.
+  - cbn [emit view_blocks app]. rewrite <- (app_nil_r tl) at 1. rewrite view_out_plain by assumption.
+    cbn [view]. now rewrite app_nil_r.
+  - destruct f; cbn [emit view_blocks].
+    + destruct (existsb fst bs).
+      * cbn [app view]. rewrite <- app_assoc. rewrite view_not_plain by apply plain_out. cbn [app view]. rewrite IH.
+        destruct exact; cbn [app]; now rewrite ?app_assoc.
+      * cbn [app view]. rewrite <- app_assoc. rewrite view_pins_plain by assumption. cbn [app view].
+        rewrite <- app_assoc. rewrite view_else_plain by apply plain_out. cbn [app view]. rewrite IH.
+        destruct exact; cbn [app]; now rewrite ?app_nil_r, ?app_assoc.
+    + rewrite <- app_assoc. rewrite view_out_plain by apply plain_out. now rewrite IH, app_assoc.
 Qed.
+
+Lemma plain_final bl : plain (final_lines bl).
+Proof. apply Forall_forall. intros x I. apply in_map_iff in I. destruct I as [y [E _]]. now subst. Qed.
 
 (* the blocks partition the lines *)
 Lemma blocks_concat : forall ls f cur, concat (map snd (blocks f cur ls)) = rev cur ++ ls.
@@ -196,9 +208,10 @@ Proof.
   destruct l; try (rewrite IH; simpl; now rewrite <- app_assoc).
   - destruct f; simpl; rewrite IH; simpl; [now rewrite <- app_assoc|reflexivity].
   - destruct f; simpl; rewrite IH; simpl; [reflexivity|now rewrite <- app_assoc].
+  - destruct f; simpl; rewrite IH; simpl; [now rewrite <- app_assoc|reflexivity].
 Qed.
 
-Definition is_bsetup (b : bline) : bool := match b with BSetup _ => true | _ => false end.
+Definition is_bsetup (b : bline) : bool := match b with BSetup _ | BEups _ => true | _ => false end.
 Definition is_bother (b : bline) : bool := match b with BOther _ => true | _ => false end.
 
 (* a setup block holds no other command, another block holds no setup line *)
@@ -220,6 +233,9 @@ Proof.
   - destruct f.
     + constructor; [assumption|]. apply IH. unfold block_ok; simpl. constructor; [reflexivity|constructor].
     + apply IH, S. reflexivity.
+  - destruct f.
+    + apply IH, S. reflexivity.
+    + constructor; [assumption|]. apply IH. unfold block_ok; simpl. constructor; [reflexivity|constructor].
 Qed.
 
 (* projections of a list of output lines *)
@@ -229,6 +245,11 @@ Fixpoint comments_of (ls : list oline) : list str :=
   match ls with [] => [] | OComment t :: r => t :: comments_of r | _ :: r => comments_of r end.
 Fixpoint setups_of (ls : list oline) : list rline :=
   match ls with [] => [] | OSetup s :: r => s :: setups_of r | _ :: r => setups_of r end.
+
+Fixpoint eups_of (ls : list oline) : list str :=
+  match ls with [] => [] | OEups t :: r => t :: eups_of r | _ :: r => eups_of r end.
+Lemma eups_of_app a b : eups_of (a ++ b) = eups_of a ++ eups_of b.
+Proof. induction a as [|x a IH]; [reflexivity|]. destruct x; simpl; now rewrite IH. Qed.
 
 Lemma others_of_app a b : others_of (a ++ b) = others_of a ++ others_of b.
 Proof. induction a as [|x a IH]; [reflexivity|]. destruct x; simpl; now rewrite IH. Qed.
@@ -254,6 +275,18 @@ Proof.
   induction b as [|x b IH]; [reflexivity|]. destruct x; cbn [drop_last_blank]; try (simpl; now rewrite IH).
   destruct b; [reflexivity|]. simpl in *. exact IH.
 Qed.
+Lemma others_bodyl b : others_of (map out_bline (body_lines b)) = others_of (map out_bline b).
+Proof. induction b as [|x b IH]; [reflexivity|]. destruct x; simpl; now rewrite IH. Qed.
+Lemma comments_bodyl b : comments_of (map out_bline (body_lines b)) = comments_of (map out_bline b).
+Proof. induction b as [|x b IH]; [reflexivity|]. destruct x; simpl; now rewrite IH. Qed.
+Lemma setups_bodyl b : setups_of (map out_bline (body_lines b)) = setups_of (map out_bline b).
+Proof. induction b as [|x b IH]; [reflexivity|]. destruct x; simpl; now rewrite IH. Qed.
+Lemma others_body lvl b : others_of (map out_bline (setup_body lvl b)) = others_of (map out_bline b).
+Proof. unfold setup_body. destruct (0 <? lvl + 1)%Z; now rewrite ?others_drop, others_bodyl. Qed.
+Lemma comments_body lvl b : comments_of (map out_bline (setup_body lvl b)) = comments_of (map out_bline b).
+Proof. unfold setup_body. destruct (0 <? lvl + 1)%Z; now rewrite ?comments_drop, comments_bodyl. Qed.
+Lemma setups_body lvl b : setups_of (map out_bline (setup_body lvl b)) = setups_of (map out_bline b).
+Proof. unfold setup_body. destruct (0 <? lvl + 1)%Z; now rewrite ?setups_drop, setups_bodyl. Qed.
 
 Lemma others_no_other b : Forall (fun x => is_bother x = false) b -> others_of (map out_bline b) = [].
 Proof. induction 1 as [|x b H _ IH]; [reflexivity|]. destruct x; simpl; try assumption. discriminate. Qed.
@@ -268,54 +301,54 @@ Lemma pins_of_out b : pins_of (map out_bline b) = [].
 Proof. induction b as [|x b IH]; [reflexivity|]. now destruct x. Qed.
 
 (* non-exact reading: every line of every block, a trailing blank of a setup block aside *)
-Lemma inexact_others pins : forall bs,
-  others_of (view_blocks false pins bs) = others_of (map out_bline (concat (map snd bs))).
+Lemma inexact_others pins : forall bs lvl,
+  others_of (view_blocks false lvl pins bs) = others_of (map out_bline (concat (map snd bs))).
 Proof.
-  induction bs as [|[f b] bs IH]; [reflexivity|].
-  destruct f; cbn [view_blocks map snd concat]; rewrite map_app, !others_of_app, IH; [now rewrite others_drop|reflexivity].
+  induction bs as [|[f b] bs IH]; intro lvl; [reflexivity|].
+  destruct f; cbn [view_blocks map snd concat]; rewrite map_app, !others_of_app, IH; [now rewrite others_body|reflexivity].
 Qed.
-Lemma inexact_comments pins : forall bs,
-  comments_of (view_blocks false pins bs) = comments_of (map out_bline (concat (map snd bs))).
+Lemma inexact_comments pins : forall bs lvl,
+  comments_of (view_blocks false lvl pins bs) = comments_of (map out_bline (concat (map snd bs))).
 Proof.
-  induction bs as [|[f b] bs IH]; [reflexivity|].
-  destruct f; cbn [view_blocks map snd concat]; rewrite map_app, !comments_of_app, IH; [now rewrite comments_drop|reflexivity].
+  induction bs as [|[f b] bs IH]; intro lvl; [reflexivity|].
+  destruct f; cbn [view_blocks map snd concat]; rewrite map_app, !comments_of_app, IH; [now rewrite comments_body|reflexivity].
 Qed.
-Lemma inexact_setups pins : forall bs,
-  setups_of (view_blocks false pins bs) = setups_of (map out_bline (concat (map snd bs))).
+Lemma inexact_setups pins : forall bs lvl,
+  setups_of (view_blocks false lvl pins bs) = setups_of (map out_bline (concat (map snd bs))).
 Proof.
-  induction bs as [|[f b] bs IH]; [reflexivity|].
-  destruct f; cbn [view_blocks map snd concat]; rewrite map_app, !setups_of_app, IH; [now rewrite setups_drop|reflexivity].
+  induction bs as [|[f b] bs IH]; intro lvl; [reflexivity|].
+  destruct f; cbn [view_blocks map snd concat]; rewrite map_app, !setups_of_app, IH; [now rewrite setups_body|reflexivity].
 Qed.
 
 (* exact reading: the other commands, and the pins in place of the last setup block *)
-Lemma exact_others a : forall bs, Forall block_ok bs ->
-  others_of (view_blocks true (pin_lines a) bs) = others_of (map out_bline (concat (map snd bs))).
+Lemma exact_others a : forall bs, Forall block_ok bs -> forall lvl,
+  others_of (view_blocks true lvl (pin_lines a) bs) = others_of (map out_bline (concat (map snd bs))).
 Proof.
-  induction 1 as [|[f b] bs H _ IH]; [reflexivity|].
+  induction 1 as [|[f b] bs H _ IH]; intro lvl; [reflexivity|].
   destruct f; cbn [view_blocks map snd concat]; rewrite map_app, !others_of_app, IH; [|reflexivity].
   unfold block_ok in H; simpl in H. rewrite (others_no_other b H).
   destruct (existsb fst bs); [reflexivity|now rewrite plain_pins_others].
 Qed.
-Lemma exact_setups a : forall bs, Forall block_ok bs -> setups_of (view_blocks true (pin_lines a) bs) = [].
+Lemma exact_setups a : forall bs, Forall block_ok bs -> forall lvl, setups_of (view_blocks true lvl (pin_lines a) bs) = [].
 Proof.
-  induction 1 as [|[f b] bs H _ IH]; [reflexivity|].
+  induction 1 as [|[f b] bs H _ IH]; intro lvl; [reflexivity|].
   destruct f; cbn [view_blocks]; rewrite setups_of_app, IH, app_nil_r.
   - destruct (existsb fst bs); [reflexivity|apply plain_pins_setups].
   - unfold block_ok in H; simpl in H. now apply setups_no_setup.
 Qed.
 
-Lemma pins_of_view_blocks pins : forall bs,
-  pins_of (view_blocks true pins bs) = if existsb fst bs then pins_of pins else [].
+Lemma pins_of_view_blocks pins : forall bs lvl,
+  pins_of (view_blocks true lvl pins bs) = if existsb fst bs then pins_of pins else [].
 Proof.
-  induction bs as [|[f b] bs IH]; [reflexivity|].
+  induction bs as [|[f b] bs IH]; intro lvl; [reflexivity|].
   destruct f; cbn [view_blocks existsb fst orb]; rewrite pins_of_app, IH.
   - destruct (existsb fst bs); [reflexivity|now rewrite app_nil_r].
   - now rewrite pins_of_out.
 Qed.
-Lemma pins_of_emit pins : plain pins -> forall bs,
-  pins_of (emit pins bs) = if existsb fst bs then pins_of pins else [].
+Lemma pins_of_emit pins : plain pins -> forall bs lvl,
+  pins_of (emit lvl pins bs) = if existsb fst bs then pins_of pins else [].
 Proof.
-  intros _. induction bs as [|[f b] bs IH]; [reflexivity|]. destruct f; cbn [emit existsb fst orb].
+  intros _. induction bs as [|[f b] bs IH]; intro lvl; [reflexivity|]. destruct f; cbn [emit existsb fst orb].
   - destruct (existsb fst bs) eqn:X.
     + cbn [pins_of]. rewrite pins_of_app, pins_of_out. cbn [pins_of app]. now rewrite IH.
     + cbn [pins_of]. rewrite pins_of_app. cbn [pins_of]. rewrite pins_of_app, pins_of_out.
@@ -330,6 +363,8 @@ Fixpoint comments_in (ls : list tline) : list str :=
   match ls with [] => [] | LComment t :: r => t :: comments_in r | _ :: r => comments_in r end.
 Fixpoint setups_in (ls : list tline) : list sline :=
   match ls with [] => [] | LSetup s :: r => s :: setups_in r | _ :: r => setups_in r end.
+Fixpoint eups_in (ls : list tline) : list str :=
+  match ls with [] => [] | LEups t :: r => t :: eups_in r | _ :: r => eups_in r end.
 
 Lemma others_rewrite w e plist ls :
   others_of (map out_bline (map (rewrite_line w e plist) ls)) = others_in ls.
@@ -341,13 +376,27 @@ Lemma setups_rewrite w e plist ls :
   setups_of (map out_bline (map (rewrite_line w e plist) ls)) = map (rewrite w e plist) (setups_in ls).
 Proof. induction ls as [|l ls IH]; [reflexivity|]. destruct l; simpl; now rewrite IH. Qed.
 
+Lemma eups_rewrite w e plist ls : eups_lines (map (rewrite_line w e plist) ls) = eups_in ls.
+Proof. induction ls as [|l ls IH]; [reflexivity|]. destruct l; simpl; now rewrite IH. Qed.
+Lemma others_final bl : others_of (final_lines bl) = [].
+Proof. unfold final_lines. induction (eups_lines bl); [reflexivity|assumption]. Qed.
+Lemma comments_final bl : comments_of (final_lines bl) = [].
+Proof. unfold final_lines. induction (eups_lines bl); [reflexivity|assumption]. Qed.
+Lemma setups_final bl : setups_of (final_lines bl) = [].
+Proof. unfold final_lines. induction (eups_lines bl); [reflexivity|assumption]. Qed.
+Lemma pins_final bl : pins_of (final_lines bl) = [].
+Proof. unfold final_lines. induction (eups_lines bl); [reflexivity|assumption]. Qed.
+Lemma eups_final bl : eups_of (final_lines bl) = eups_lines bl.
+Proof. unfold final_lines. induction (eups_lines bl) as [|x l IH]; [reflexivity|]. simpl. now rewrite IH. Qed.
+
 Section Views.
 Variables (jf sf cf : bool) (w : world) (e : amap str) (top : str) (plist : amap str) (force : bool) (rd : rawdeps).
 Variables (ls : list tline) (out : list oline).
 Hypothesis E : expand_gen jf sf cf w e top plist force rd ls = Ok out.
 
 Lemma expand_shape : exists a,
-  out = emit (pin_lines a) (blocks false [] (map (rewrite_line w e plist) ls)).
+  out = emit 0 (pin_lines a) (blocks false [] (map (rewrite_line w e plist) ls))
+        ++ final_lines (map (rewrite_line w e plist) ls).
 Proof.
   unfold expand_gen in E. destruct (collect jf sf cf w e top plist force rd _ _) as [a|x]; [|discriminate].
   exists a. now inversion E.
@@ -361,33 +410,80 @@ Proof. apply blocks_ok. unfold block_ok; simpl. constructor. Qed.
 
 Lemma others_pass exact : others_of (view exact VOut out) = others_in ls.
 Proof.
-  destruct expand_shape as [a ->]. rewrite view_emit by apply plain_pins. destruct exact.
+  destruct expand_shape as [a ->]. rewrite view_emit by (apply plain_pins || apply plain_final).
+  rewrite others_of_app, others_final, app_nil_r. destruct exact.
   - rewrite exact_others by apply blocks_fine. rewrite blocks_lines. apply others_rewrite.
   - rewrite inexact_others, blocks_lines. apply others_rewrite.
 Qed.
 
 Lemma comments_pass : comments_of (view false VOut out) = comments_in ls.
 Proof.
-  destruct expand_shape as [a ->]. rewrite view_emit by apply plain_pins.
+  destruct expand_shape as [a ->]. rewrite view_emit by (apply plain_pins || apply plain_final).
+  rewrite comments_of_app, comments_final, app_nil_r.
   rewrite inexact_comments, blocks_lines. apply comments_rewrite.
 Qed.
 
 Lemma inexact_setup_lines : setups_of (view false VOut out) = map (rewrite w e plist) (setups_in ls).
 Proof.
-  destruct expand_shape as [a ->]. rewrite view_emit by apply plain_pins.
+  destruct expand_shape as [a ->]. rewrite view_emit by (apply plain_pins || apply plain_final).
+  rewrite setups_of_app, setups_final, app_nil_r.
   rewrite inexact_setups, blocks_lines. apply setups_rewrite.
 Qed.
 
 Lemma exact_no_setup_line : setups_of (view true VOut out) = [].
 Proof.
-  destruct expand_shape as [a ->]. rewrite view_emit by apply plain_pins.
+  destruct expand_shape as [a ->]. rewrite view_emit by (apply plain_pins || apply plain_final).
+  rewrite setups_of_app, setups_final, app_nil_r.
   apply exact_setups, blocks_fine.
 Qed.
 
 Lemma exact_view_pins : pins_of (view true VOut out) = pins_of out.
 Proof.
-  destruct expand_shape as [a ->]. rewrite view_emit by apply plain_pins.
+  destruct expand_shape as [a ->]. rewrite view_emit by (apply plain_pins || apply plain_final).
+  rewrite !pins_of_app, pins_final.
   rewrite pins_of_view_blocks, pins_of_emit by apply plain_pins. reflexivity.
+Qed.
+
+(* the lines naming eups are written, unchanged and in order, after everything else: both readings see them *)
+Lemma eups_of_view_blocks exact pins : eups_of pins = [] -> forall bs lvl,
+  Forall block_ok bs -> eups_of (view_blocks exact lvl pins bs) = [].
+Proof.
+  intros Hp. assert (B : forall b, eups_of (map out_bline (body_lines b)) = []).
+  { induction b as [|x b IH]; [reflexivity|]. destruct x; simpl; assumption. }
+  assert (D : forall b, eups_of (map out_bline (drop_last_blank (body_lines b))) = []).
+  { intro b. generalize (B b). induction (body_lines b) as [|x l IH]; [reflexivity|].
+    destruct x; cbn [drop_last_blank]; try (simpl; exact IH); try discriminate.
+    destruct l; [reflexivity|]. simpl in *. exact IH. }
+  induction bs as [|[f b] bs IH]; intros lvl Hb; [reflexivity|]. inversion Hb as [|? ? H1 H2]; subst.
+  destruct f; cbn [view_blocks]; rewrite eups_of_app, IH by assumption; rewrite app_nil_r.
+  - destruct exact; [destruct (existsb fst bs); [reflexivity|exact Hp]|].
+    unfold setup_body. destruct (0 <? lvl + 1)%Z; [apply D|apply B].
+  - unfold block_ok in H1. simpl in H1. clear - H1. induction H1 as [|x b Hx _ IH]; [reflexivity|].
+    destruct x; simpl; try assumption. discriminate.
+Qed.
+
+Lemma eups_of_emit pins : eups_of pins = [] -> forall bs lvl,
+  Forall block_ok bs -> eups_of (emit lvl pins bs) = [].
+Proof.
+  intros Hp bs lvl Hb.
+  pose proof (eups_of_view_blocks false pins Hp bs lvl Hb) as V0.
+  pose proof (eups_of_view_blocks true pins Hp bs lvl Hb) as V1.
+  revert lvl Hb V0 V1. induction bs as [|[f b] bs IH]; intros lvl Hb V0 V1; [reflexivity|].
+  inversion Hb as [|? ? H1 H2]; subst. destruct f; cbn [view_blocks] in V0, V1; rewrite eups_of_app in V0, V1;
+  apply app_eq_nil in V0, V1; destruct V0 as [A0 B0], V1 as [A1 B1]; cbn [emit].
+  - destruct (existsb fst bs).
+    + cbn [eups_of]. rewrite eups_of_app, A0. cbn [app eups_of]. now apply IH.
+    + cbn [eups_of]. rewrite eups_of_app, Hp. cbn [app eups_of]. rewrite eups_of_app, A0. cbn [app eups_of]. now apply IH.
+  - rewrite eups_of_app, A0. now apply IH.
+Qed.
+
+Lemma eups_pass exact : eups_of (view exact VOut out) = eups_in ls /\ eups_of out = eups_in ls.
+Proof.
+  destruct expand_shape as [a ->]. rewrite view_emit by (apply plain_pins || apply plain_final).
+  assert (Hp : eups_of (pin_lines a) = []) by (unfold pin_lines; induction (a_des a); [reflexivity|assumption]).
+  split.
+  - rewrite eups_of_app, eups_final, eups_of_view_blocks by (assumption || apply blocks_fine). apply eups_rewrite.
+  - rewrite eups_of_app, eups_final, eups_of_emit by (assumption || apply blocks_fine). apply eups_rewrite.
 Qed.
 End Views.
 
@@ -607,11 +703,12 @@ Proof.
   - destruct l; simpl; auto.
     + destruct f; [auto|]. simpl. apply blocks_true.
     + destruct f; simpl; auto.
+    + destruct f; [auto|]. simpl. apply blocks_true.
 Qed.
 
-Lemma emit_has_pins pins x : forall bs, existsb fst bs = true -> In x pins -> In x (emit pins bs).
+Lemma emit_has_pins pins x : forall bs lvl, existsb fst bs = true -> In x pins -> In x (emit lvl pins bs).
 Proof.
-  induction bs as [|[f b] bs IH]; intros X I; [discriminate|]. destruct f; cbn [emit].
+  induction bs as [|[f b] bs IH]; intros lvl X I; [discriminate|]. destruct f; cbn [emit].
   - destruct (existsb fst bs) eqn:Y.
     + right. apply in_or_app. right. right. now apply IH.
     + right. apply in_or_app. now left.
@@ -655,7 +752,7 @@ Proof.
   destruct L as [l [Ll [o [v' [Il Rv]]]]].
   pose proof (collect_complete true true true w e top [] force rd _ _ a r l n v' o Col Ir Ll Il) as D.
   exists (mem_key (n, v') (a_opt a) || mem_str n (a_nf a)), v'. split; [|exact Rv].
-  apply emit_has_pins.
+  apply in_or_app. left. apply emit_has_pins.
   - eapply blocks_has_setup. apply in_map_rewrite_bsetup. exact I.
   - unfold pin_lines. apply in_map_iff. exists (n, v'). split; [reflexivity|exact D].
 Qed.
@@ -736,7 +833,7 @@ Proof.
   destruct L as [l [Ll [o [v' [Il Rv]]]]].
   pose proof (collect_complete true true true w e top [] force rd _ _ a r l n v' o Col Ir Ll Il) as D.
   exists (mem_key (n, v') (a_opt a) || mem_str n (a_nf a)), v'. split; [|exact Rv].
-  apply emit_has_pins.
+  apply in_or_app. left. apply emit_has_pins.
   - eapply blocks_has_setup. apply in_map_rewrite_bsetup. exact I.
   - unfold pin_lines. apply in_map_iff. exists (n, v'). split; [reflexivity|exact D].
 Qed.
